@@ -87,6 +87,7 @@ def case_conv(R, res, lines, expect):
     nexec = R.randint(1, 3)
     curves = []
     hists = []
+    ragged = False
     if multi:
         names = [("a", R.choice(["min", "max"])), ("b", R.choice(["min", "max"]))]
         obj = om.MultiObjective([om.Objective(n, d) for n, d in names])
@@ -96,11 +97,15 @@ def case_conv(R, res, lines, expect):
         obj = om.Objective("score", direction)
     for _ in range(nexec):
         L = R.randint(1, 7)
+        # a metric that is not part of the objective may be logged less often (validation_freq=2, sparse callback logs): its
+        # list is shorter than the objective's; the best epoch is still looked for over ALL epochs of the objective
+        Ls = L if R.random() < 0.6 else R.randint(1, L)
+        ragged = ragged or Ls < L
         h = keras.callbacks.History()
         if multi:
             a = [R.randint(-3, 6) for _ in range(L)]
             b = [R.randint(-3, 6) for _ in range(L)]
-            h.history = {"a": [float(x) for x in a], "b": [float(x) for x in b], "other": [1.0] * L}
+            h.history = {"a": [float(x) for x in a], "b": [float(x) for x in b], "other": [1.0] * Ls}
             comb = []
             for x, y in zip(a, b):
                 terms = [[names[0][1] == "min", x], [names[1][1] == "min", y]]
@@ -114,7 +119,7 @@ def case_conv(R, res, lines, expect):
             curves.append(comb)
         else:
             c = [R.choice([0, 1, 1, 2, 2, 3, 5, -1, 4]) for _ in range(L)]
-            h.history = {"score": [float(x) for x in c], "loss": [0.5] * L}
+            h.history = {"score": [float(x) for x in c], "loss": [0.5] * Ls}
             curves.append(c)
         hists.append(h)
     results = hists if nexec > 1 or R.random() < 0.5 else hists[0]
@@ -138,7 +143,7 @@ def case_conv(R, res, lines, expect):
             L = len(next(iter(h.history.values())))
             for ep in range(L):
                 model.cursor = flat
-                cb.on_epoch_end(ep, {k: v[ep] for k, v in h.history.items()})
+                cb.on_epoch_end(ep, {k: v[ep] for k, v in h.history.items() if ep < len(v)})
                 flat += 1
     finally:
         tu.SaveBestEpoch._save_model = real_save
@@ -171,7 +176,76 @@ def case_conv(R, res, lines, expect):
     expect.append(f"obj={q.numerator}/{q.denominator} step={step} kept={kept} epochs=" + ",".join(str(e) for e in beps))
     res.hist["conv-multi" if multi else "conv"] += 1
     res.hist[f"executions-{nexec}"] += 1
+    if ragged:
+        res.hist["conv-ragged-history"] += 1
     return nexec >= 2 or len(curves[0]) >= 3
+
+
+NAME_DIR = {"loss": "min", "val_loss": "min", "acc": "max", "accuracy": "max", "val_accuracy": "max", "custom_thing": "min", "score": "min"}
+
+
+def case_update(R, res, lines, expect):
+    """Oracle.update_trial with several metrics per report (the objective anywhere in the dict): every metric is recorded per
+    step under ITS OWN direction - the objective's as the user gave it, the others' as their names say (loss-like: min,
+    accuracy-like: max, unknown: min) - and the score after end_trial is the objective's best value"""
+    kt = impl()
+    from harness import gen
+    from harness.common import tempdir, quiet
+    names = list(NAME_DIR)
+    R.shuffle(names)
+    multi = R.random() < 0.25
+    if multi:
+        objs = [(names[0], R.choice(["min", "max"])), (names[1], R.choice(["min", "max"]))]
+        obj = kt.Objective(objs[0][0], objs[0][1]), kt.Objective(objs[1][0], objs[1][1])
+        obj = list(obj)
+    else:
+        objs = [(names[0], R.choice(["min", "max"]))]
+        obj = kt.Objective(*objs[0])
+    want_dir = dict(NAME_DIR)
+    want_dir.update(dict(objs))
+    others = names[len(objs):len(objs) + R.randint(1, 3)]
+    with tempdir("ktm") as d:
+        o = gen.make_oracle(R, "random", gen.rand_specs(R, maxdepth=1), d, objective=obj, max_trials=2)
+        t = quiet(o.create_trial, "w0")
+        per = {}
+        nrep = R.randint(2, 6)
+        for _ in range(nrep):
+            step = R.choice([0, 1, 1, 2, 3, 5])
+            keys = [n for n, _ in objs] + [n for n in others if R.random() < 0.8]
+            R.shuffle(keys)
+            rep = {k: float(R.choice(VALS[:8])) for k in keys}
+            quiet(o.update_trial, t.trial_id, rep, step=step)
+            for k, v in rep.items():
+                per.setdefault(k, {}).setdefault(step, []).append(v)
+        tr = o.trials[t.trial_id]
+        found = []
+        for k in sorted(per):
+            hist = tr.metrics.metrics[k]
+            if hist.direction != want_dir[k]:
+                found.append(Violation("C18", f"metric {k!r} is tracked with direction {hist.direction!r}; objective(s) {objs}: its direction is {want_dir[k]!r}",
+                                       {"tag": "metric-direction"}))
+            rb, _ = ref_best(want_dir[k], per[k])
+            best = tr.metrics.get_best_value(k)
+            if not (best == rb or abs(best - rb) <= 1e-12 * max(1, abs(rb))):
+                found.append(Violation("C18", f"best value of metric {k!r} ({want_dir[k]}) over reports {per[k]} is {best}, reference {rb}", {"tag": "best-value-multi-report"}))
+            got_steps = [ob.step for ob in tr.metrics.get_history(k)]
+            if got_steps != sorted(per[k]):
+                found.append(Violation("C18", f"history of {k!r} has steps {got_steps}, reported at {sorted(per[k])}", {"tag": "history-order"}))
+            reps = [[s_, fl(v)] for s_ in per[k] for v in per[k][s_]]
+            lines.append(dict(suite="metrics", op="hist", minimize=want_dir[k] == "min", reports=reps))
+            hs = ",".join(f"{ob.step}:{fl_str(ob.mean())}:{len(ob.value)}" for ob in tr.metrics.get_history(k))
+            expect.append(f"best={fl_str(best)} step={tr.metrics.get_best_step(k)} history=[{hs}]")
+        if found:
+            found[0].also = found[1:]
+            raise found[0]
+        quiet(o.end_trial, t)
+        tr = o.trials[t.trial_id]
+        bests = {k: ref_best(want_dir[k], per[k])[0] for k, _ in objs}
+        ref_score = bests[objs[0][0]] if not multi else sum(b if dr == "min" else -b for (k, dr), b in zip(objs, [bests[k] for k, _ in objs]))
+        if not multi and tr.status == "COMPLETED" and not (tr.score == ref_score or abs(tr.score - ref_score) < 1e-9):
+            raise Violation("C18", f"score {tr.score} after end_trial, best value of the objective {objs} over {per[objs[0][0]]} is {ref_score}", {"tag": "score"})
+    res.hist["update-multi-objective" if multi else "update"] += 1
+    return True
 
 
 def case_plain(R, res):
@@ -201,6 +275,16 @@ def case_plain(R, res):
     res.hist["plain"] += 1
 
 
+def run_case(kind, RR, res, lines, expect):
+    if kind == 0:
+        return case_hist(RR, res, lines, expect)
+    if kind == 1:
+        return case_conv(RR, res, lines, expect)
+    if kind == 3:
+        return case_update(RR, res, lines, expect)
+    return case_plain(RR, res) or False
+
+
 def run(seed, tier, n=None):
     res = Result("metrics")
     res.rule = ("random (value, step) report sequences in any order incl. repeated steps, ties, NaN and infinities; per-execution "
@@ -214,14 +298,14 @@ def run(seed, tier, n=None):
         RR = random.Random(sseed)
         lines, expect = [], []
         res.scenarios += 1
+        kind = i % 3 if i % 12 != 11 else 3
         try:
-            kind = i % 3
-            nt = case_hist(RR, res, lines, expect) if kind == 0 else (case_conv(RR, res, lines, expect) if kind == 1 else (case_plain(RR, res) or False))
+            nt = run_case(kind, RR, res, lines, expect)
         except Violation as v:
             for x in [v] + list(getattr(v, "also", [])):
-                res.violations.append({"pid": x.pid, "what": x.what, "sig": x.sig, "replay": {"suite": "metrics", "seed": sseed, "kind": i % 3}})
+                res.violations.append({"pid": x.pid, "what": x.what, "sig": x.sig, "replay": {"suite": "metrics", "seed": sseed, "kind": kind}})
             continue
-        doc = {"suite": "metrics", "seed": sseed, "kind": i % 3}
+        doc = {"suite": "metrics", "seed": sseed, "kind": kind}
         spans.append((len(all_lines), lines, expect, doc))
         all_lines += lines
         if nt:
@@ -243,8 +327,7 @@ def replay(doc):
     RR = random.Random(doc["seed"])
     lines, expect = [], []
     try:
-        k = doc["kind"]
-        case_hist(RR, res, lines, expect) if k == 0 else (case_conv(RR, res, lines, expect) if k == 1 else case_plain(RR, res))
+        run_case(doc["kind"], RR, res, lines, expect)
     except Violation as v:
         for x in [v] + list(getattr(v, "also", [])):
             res.violations.append({"pid": x.pid, "what": x.what, "sig": x.sig, "replay": doc})
